@@ -24,7 +24,7 @@ TIERS = {
     "quick": dict(plans=184, budget_s=70, worlds=4, det_plans=2),
     "thorough": dict(plans=6000, budget_s=900, worlds=150, det_plans=8, always_selftest=True),
 }
-LOSSES = ["contig_absent", "locus", "locus_decoy_sam", "locus_sliver", "gene_only", "neutral", "neutral_sparse", "empty", "depth_below", "depth_above", "stream_error", "seam_drop_locus"]
+LOSSES = ["contig_absent", "depth_just_below", "depth_just_above", "locus_skipped", "locus", "locus_decoy_sam", "locus_sliver", "gene_only", "neutral", "neutral_sparse", "empty", "depth_below", "depth_above", "stream_error", "seam_drop_locus"]
 ROUTES = ["yml", "bam", "cn", "cn_dump"]
 OUTS = ["aldy", "vcf", "simple", "none"]
 # full factorial of loss x route x output x {single, multi}; a batch walks through it
@@ -46,6 +46,10 @@ def applicable(loss, route, multi):
         return False  # statement does not say what a user-fixed structure means without gene reads
     if multi and loss == "locus_decoy_sam":
         return False  # text SAM has no index: indel evidence of every gene is lost (not C19's business)
+    if loss in ("depth_just_below", "depth_just_above"):
+        return not multi and route != "cn_dump"
+    if loss == "locus_skipped":
+        return route != "cn_dump"
     if multi and loss in ("neutral", "neutral_sparse", "empty", "depth_below", "depth_above", "stream_error"):
         return False  # these hit every gene of the run
     return True
@@ -154,7 +158,7 @@ def judge(plan, outcome):
     called = bool(res_a) and any(len(x[1]) > 0 for x in res_a)
     has_del = any(al["kind"] == "deletion" for al in ga["alleles"]) and ga["pregions"] is not None
     fired = r["fired"]
-    expect_error = loss in ("contig_absent", "locus", "locus_decoy_sam", "neutral", "neutral_sparse", "empty", "depth_below", "seam_drop_locus")
+    expect_error = loss in ("contig_absent", "depth_just_below", "locus_skipped", "locus", "locus_decoy_sam", "neutral", "neutral_sparse", "empty", "depth_below", "seam_drop_locus")
     if loss == "gene_only" and not has_del:
         # reads cover the pseudogene but the database has no whole-gene deletion allele: the statement
         # does not say what must happen (the locus is covered, a deletion cannot be called)
@@ -163,7 +167,7 @@ def judge(plan, outcome):
         expect_error = False
     if loss == "stream_error":
         expect_error = bool(fired.get("stream_error"))
-    if loss == "depth_above":
+    if loss in ("depth_above", "depth_just_above"):
         expect_error = False
     if loss == "locus_sliver":
         # a sliver of the locus is covered at full depth: the statement neither demands nor forbids a
@@ -212,7 +216,7 @@ def judge(plan, outcome):
                     vs.append(_v("pseudogene-only sample not called as a whole-gene deletion",
                                  got=s["major_diplotype"], **env))
                     break
-        elif loss in ("depth_above", "stream_error"):
+        elif loss in ("depth_above", "depth_just_above", "stream_error"):
             want = [x for x in pil["result"] if x[0] == a.lower() + ".yml"]
             d = canon.first_diff(canon.strip_scores(res_a), canon.strip_scores(want))
             if d:
@@ -361,6 +365,23 @@ def _lossy_bam(seg, world, smp, loss, path):
                     header_extra=[{"SN": "decoy", "LN": clen}],
                     extra_records=[(r[0], r[1], r[2], r[3], 0, 60, 40, 1) for r in decoy])
         return len(reads), len(kept)
+    if loss == "locus_skipped":
+        # no read has an aligned base in the locus, but spliced-style reads (CIGAR 40M<n>N40M) jump over each
+        # body of it: their skipped part is not sequence of the sample
+        bodies = [(min(a for _, a, b in ga["regions"]), max(b for _, a, b in ga["regions"]))]
+        if ga["pregions"]:
+            bodies.append((min(a for _, a, b in ga["pregions"]), max(b for _, a, b in ga["pregions"])))
+        kept = [r for r in reads if not any(r[0] < b and a < ref_end(r) for a, b in bodies)]
+        contig = world["contig"]["seq"]
+        extra = []
+        for bi, (a, b) in enumerate(bodies):
+            for j in range(20):
+                st = a - 45 - j
+                left, right = contig[st:st + 40], contig[b + 5 + j:b + 45 + j]
+                ops = [(0, 40), (3, b + 5 + j - (st + 40)), (0, 40)]
+                extra.append((st, ops, left + right, f"skip{bi}.{j}"))
+        W.write_bam(path, world, kept + extra, build=seg["build"])
+        return n_all, len(kept)
     kept = [r for r in reads if not any(r[0] < b and a < ref_end(r) for a, b in spans)]
     if loss == "locus_sliver":
         # of all locus reads only those touching the gene's `up` region survive (full depth there and a
@@ -430,7 +451,7 @@ def run_segment(seg):
     effective = True
     records = None
     stream = None
-    if loss in ("contig_absent", "locus", "locus_decoy_sam", "locus_sliver", "gene_only", "neutral", "neutral_sparse", "empty"):
+    if loss in ("contig_absent", "locus_skipped", "locus", "locus_decoy_sam", "locus_sliver", "gene_only", "neutral", "neutral_sparse", "empty"):
         sam_path = os.path.join(rd, "s0.sam" if loss == "locus_decoy_sam" else "s0.bam")
         records = _lossy_bam(seg, world, smp, loss, sam_path)
         effective = records[1] < records[0]
@@ -438,6 +459,11 @@ def run_segment(seg):
         params["min_avg_coverage"] = seg["avg"] * 1.1 + 0.5
     elif loss == "depth_above":
         params["min_avg_coverage"] = max(0.0, seg["avg"] * 0.9 - 0.5)
+    elif loss == "depth_just_below":
+        # the configured minimum is a hair above the sample's average depth (as aldy itself measures it)
+        params["min_avg_coverage"] = seg["avg"] + 0.003
+    elif loss == "depth_just_above":
+        params["min_avg_coverage"] = max(0.0, seg["avg"] - 0.003)
     elif loss == "stream_error":
         stream = {"error_at": seg["k"], "error": seg["err"], "error_open": seg["which_open"],
                   "only_file": "s0.bam"}
